@@ -72,6 +72,7 @@ def install():
     cfb.threading = shims.THREADING
     rebound.append("concurrent.futures._base.threading")
     shims.patch_process_time()
+    shims.TRACE_SEAM.visible = (os.path.join(SRC, "deep") + os.sep, "/simapp/", "/simlib/")
     _installed = True
 
 
